@@ -462,3 +462,30 @@ def every_accepted_state_telegram_restarts_the_expire_timer(rv, bit, response, a
     assert rv.process(t, always_callback=always)
     assert ghost("W") == ["update"]
     assert rv.value == bool(bit)
+
+
+# ------------------------------------------------------------------ a tracker stopped while it reads stays stopped
+
+
+async def _read_cancelled():
+    """The read is in progress when stop() cancels the tracker's task: the await ends with CancelledError."""
+    ghost("T").append("read")
+    raise asyncio.CancelledError()
+
+
+@lemma("C35", params=dict(tr=Obj(_StateTracker, tracker_type=EnumOf(StateTrackerType), update_interval=Int(60, 86400), _read_state=Const(_read_cancelled), _task=Choice(None, HANDLE))), stubs=STUBS)
+def a_tracker_stopped_during_its_first_read_stays_stopped(tr):
+    """start(), then stop() (disconnect, unregistration) while the initial read is still in progress: the
+    cancelled task ends there - it starts no update loop, so nothing reads while disconnected or for an
+    unregistered value."""
+    tr.start()
+    first = tr._task
+    tr.stop()
+    assert first.cancelled and tr._task is None
+    try:
+        run(first.coro)
+        assert False, "a cancelled read does not complete"
+    except asyncio.CancelledError:
+        pass
+    assert ghost("T") == ["read"]
+    assert len(ghost("created")) == 1 and tr._task is None
